@@ -231,6 +231,10 @@ def gcc_objects(ck, build):
         ck.ok("R-C19-GLOBALS", "(gcc object)", "gcc-nm:" + u["file"], "gcc -O3 object has no B/D/C symbols; undefined symbols within allow-list")
 
 
+def full_inl(build):
+    return Module(build.facts("H", "N0"))
+
+
 def run_check(ck, build):
     pass
 
@@ -239,6 +243,8 @@ def run(ck, build):
     ck.rule("R-C19-GLOBALS", "every global variable definition in every linked configuration (N0 and -O3 IR) is constant and not thread-local; "
             "assembly programs define no writable section")
     ck.rule("R-C19-IMPORTS", "every external symbol called is in the per-configuration allow-list of stateless/thread-safe imports; no heap, no VLA")
+    ck.rule("R-C19-FRESH", "the PRNG initialisers leave no byte of the caller's object that they later hash to its previous content: the seed buffer is all zero when the entropy source is "
+            "asked (so a short or failed delivery gives a state that is independent of what the memory was used for before)")
     ck.rule("R-C19-ESCAPE", "no pointer derived from a parameter is stored outside the callee's frame except callback/user_data in the PRNG state")
     ck.not_decided += ["thread-safety of the allow-listed libc functions themselves (trusted)", "gcc builds below symbol level"]
     ck.assume("libc functions in the allow-list are thread-safe; errno is per-thread")
@@ -263,6 +269,28 @@ def run(ck, build):
             if form == "N0":
                 nesc += check_escape(ck, mod, label)
     nasm = check_asm(ck, build)
+    # "a call's result never depends on earlier unrelated calls": besides globals, the one other carrier is what the caller's object held
+    # before an initialiser was called on it.  The PRNG initialisers hash the seed buffer inside that object whether or not the source
+    # filled it, so it must be defined (zero) when the source is asked: the byte-provenance summary of the seeding functions (shared
+    # with R-C15-DEP / R-C17-USABLE; here only the init-time obligations)
+    from . import kdflib
+    nfresh = [0]
+
+    def _fresh_ob(cond, rule, fn, cons, ok_, bad_, where=None):
+        base = cons.split("[")[0]
+        if base.startswith("init") and base.endswith("-prefill"):
+            nfresh[0] += 1
+            return ck.ob(cond, "R-C19-FRESH", fn, "object-history-" + cons, ok_,
+                         "the seed buffer inside the caller's object is hashed with whatever an earlier, unrelated use of that memory left there when the source delivers fewer than 32 bytes: "
+                         + bad_, where=where)
+        return cond
+    try:
+        kdflib.check_prng(_fresh_ob, full_inl(build), "H/N0", generate=False)
+        ck.floor("R-C19-FRESH", "initialiser variants (callback / NULL callback)", nfresh[0], 1)
+    except Broken as e:
+        # the seeding summary does not follow this code: the clause is then not decided here (C15 / C17 report exit 2 for it); the
+        # structural rules of this check stand on their own
+        ck.not_decided.append("R-C19-FRESH (object history of the PRNG seed buffer): the seeding summary does not follow the code - %s" % str(e)[:160])
     ck.floor("R-C19-IMPORTS", "import call sites analysed", ncall, 10)
     ck.floor("R-C19-GLOBALS", "assembly programs scanned", nasm, 27)
     ck.floor("R-C19-ESCAPE", "pointer-parameter stores examined", nesc, 2)
